@@ -1,5 +1,5 @@
 """C10: Equals / hash contract of generated and key types (mode c10 of the codec driver, own Corr file and tables)."""
-import codec
+import codec, rootmode
 from generic import run_check
 
 TRUSTED = [
@@ -21,7 +21,7 @@ ASSUME = [
 ]
 
 
-def run(pid, mode, tier, seed, replay, prop_module, corr_vo, corr_name, tables, timeout=3000):
+def run(pid, mode, tier, seed, replay, prop_module, corr_vo, corr_name, tables, timeout=3000, post=None):
     def build(work):
         exe, schema = codec.build_driver(work)
         return exe, dict(VERIF_SCHEMA=schema, VERIF_MODE=mode)
@@ -36,9 +36,11 @@ def run(pid, mode, tier, seed, replay, prop_module, corr_vo, corr_name, tables, 
         assume=ASSUME,
         coqchk_modules=["GR." + prop_module],
         driver_timeout=timeout,
+        post=post,
     )
 
 
 def main(tier, seed, replay):
     return run("C10", "c10", tier, seed, replay, "Props.C10", "Corr/HashCorr.vo",
-               "corr:hash+equals (model hashV/equalsV vs the generated ComputeHash/Equals on value pools of the family)", ["TablesFnv"])
+               "corr:hash+equals (model hashV/equalsV vs the generated ComputeHash/Equals on value pools of the family)", ["TablesFnv"],
+               post=rootmode.post("c10"))
